@@ -42,7 +42,7 @@ def _touches_storage(expr: ast.AST) -> bool:
     return any(mark in text for mark in STORAGE_MARKS)
 
 
-def _storage_delegates(ctx, module, expanded, into):
+def _storage_delegates(ctx, module, expanded, into, own=()):
     """numpy callables (short names) applied to coefficient storage inside a provenance tree."""
     for call in calls_in(expanded):
         cname = ctx.dotted(module, call.func)
@@ -51,6 +51,11 @@ def _storage_delegates(ctx, module, expanded, into):
             dn = ctx.dotted(module, nf) if nf is not None else None
             if dn and dn.startswith("numpy."):
                 into.setdefault(dn.split(".")[-1], call)
+            continue
+        if cname is None and isinstance(call.func, ast.Attribute) and call.func.attr in own \
+                and _touches_storage(call.func.value):
+            # method spelling on the storage:  x.values.diagonal(...)  is  numpy.diagonal(x.values, ...)
+            into.setdefault(call.func.attr, call)
             continue
         if cname is None or not cname.startswith("numpy."):
             continue
@@ -86,15 +91,15 @@ def run_delegate(ctx) -> RuleResult:
         for path in paths:
             for step in path:
                 if step.kind == "return" and step.node.value is not None:
-                    _storage_delegates(ctx, module, step.expand(step.node.value), delegates)
+                    _storage_delegates(ctx, module, step.expand(step.node.value), delegates, names)
                 elif step.kind == "stmt" and isinstance(step.node, (ast.Assign, ast.AugAssign)):
                     targets = step.node.targets if isinstance(step.node, ast.Assign) else [step.node.target]
                     if any(isinstance(t, ast.Subscript) for t in targets):
-                        _storage_delegates(ctx, module, step.expand(step.node.value), delegates)
+                        _storage_delegates(ctx, module, step.expand(step.node.value), delegates, names)
                 if step.kind in ("stmt", "return", "assume"):
                     for call in step_calls(step):
                         if kwarg(call, "out") is not None:
-                            _storage_delegates(ctx, module, step.expand(call), delegates)
+                            _storage_delegates(ctx, module, step.expand(call), delegates, names)
         if not delegates:
             continue
         ok = bool(set(delegates) & names)
@@ -135,6 +140,10 @@ def run_delegate(ctx) -> RuleResult:
                             referenced.add(dotted.split(".")[-1])
                         if dotted == SIMPLE_DISPATCH:
                             referenced.add("<dispatch>")
+                    if isinstance(node, ast.Call) and isinstance(node.func, ast.Attribute) and node.func.attr in names \
+                            and not (ctx.dotted(module, node.func) or "").startswith(("numpy.", "numpoly.")) \
+                            and _touches_storage(node.func.value):
+                        referenced.add(node.func.attr)  # ndarray method spelling of the mirrored function on the storage
                     if isinstance(node, ast.Call) and isinstance(node.func, ast.Name) and node.func.id in module.functions \
                             and node.func.id != func.name:
                         todo.append(module.functions[node.func.id])
